@@ -63,7 +63,9 @@ func replay(c *mc.Ctx, u mc.Unit, v mc.Violation) {
 	cfg := u.Params.(senderkit.Cfg)
 	w := senderkit.NewWorld(cfg.Hist, worldDir(u)+"-replay")
 	defer w.Close()
-	senderkit.Run(c, cfg, opts, w, v.History)
+	o := opts
+	o.Verbose = true
+	senderkit.Run(c, cfg, o, w, v.History)
 }
 
 func main() {
